@@ -191,6 +191,30 @@ func (p *Prog) FuncDecl(pkgRel, name string) *ast.FuncDecl {
 	return nil
 }
 
+// FuncOrMethodDecl finds a package-level function by name, or — when a refactor turned it into a method — the one
+// method of that name in the package.
+func (p *Prog) FuncOrMethodDecl(pkgRel, name string) *ast.FuncDecl {
+	if fd := p.FuncDecl(pkgRel, name); fd != nil {
+		return fd
+	}
+	pkg := p.Pkg(pkgRel)
+	if pkg == nil {
+		return nil
+	}
+	var found []*ast.FuncDecl
+	for _, f := range pkg.Syntax {
+		for _, d := range f.Decls {
+			if fd, ok := d.(*ast.FuncDecl); ok && fd.Name.Name == name && fd.Recv != nil {
+				found = append(found, fd)
+			}
+		}
+	}
+	if len(found) == 1 {
+		return found[0]
+	}
+	return nil
+}
+
 func recvTypeName(fd *ast.FuncDecl) string {
 	if fd.Recv == nil || len(fd.Recv.List) == 0 {
 		return ""
